@@ -77,6 +77,15 @@ Verdict(c) ==
     IN IF c.op = "alias" THEN (IF c.post = c.pre THEN <<"ok", "", "">>
                                ELSE <<"earlier-object-changed-by-an-operation-on-an-object-derived-from-it", "", "">>)
        ELSE IF c.err # "none" THEN <<"exception-on-valid-arguments", "", "">>
+       \* op "counterpart": pre = state after the NON-mutating form, post = state after the mutating form of the same
+       \* operation with the same operand (here: a raw block without label arrays, whose entities carry no labels)
+       ELSE IF c.op = "counterpart" THEN
+            (IF \E b \in Axes : \E f \in Fields(b) : c.post.lab[b][f].on /\ Len(c.post.lab[b][f].v) # Len(c.post.ax[b])
+                THEN <<"label-array-length-differs-from-the-axis", a, "">>
+             ELSE IF \E b \in Axes : \E f \in Fields(b) : c.pre.lab[b][f].on /\ Len(c.pre.lab[b][f].v) # Len(c.pre.ax[b])
+                THEN <<"label-array-length-differs-from-the-axis", a, "">>
+             ELSE IF c.post # c.pre THEN <<"mutating-operation-differs-from-its-non-mutating-counterpart", a, "">>
+             ELSE <<"ok", "", "">>)
        ELSE IF ~c.post.ok.square THEN <<"square-axes-disagree", "", "">>
        ELSE IF ~c.post.ok.cells THEN <<"data-cells-not-those-of-the-entity", "", "">>
        ELSE IF c.op \in {"select", "reorder", "delete", "insert", "adjoin", "concat", "ungroup"} /\ t # Expected(c, s)
